@@ -225,7 +225,22 @@ func (s *LogStore) triggerVerify(r VerificationReport) {
 
 // DeleteRange deletes a range of log entries. The range is inclusive.
 func (s *LogStore) DeleteRange(min uint64, max uint64) error {
-	return s.s.DeleteRange(min, max)
+	err := s.s.DeleteRange(min, max)
+	// The running checksum covers every entry written since sumStartIdx. If the
+	// deleted range reaches into those entries (a tail truncation before a
+	// conflicting suffix is re-appended, or a truncation that removes the whole
+	// log) they are about to be replaced or skipped, so the sum no longer
+	// describes what is on disk: start over with the next append, exactly as
+	// after a restart. The next checkpoint then carries no written sum for its
+	// range and is verified by reading back only. This is done even when the
+	// underlying store reports an error since the range may have been removed
+	// in part. Truncations entirely below sumStartIdx (the usual compaction
+	// after a snapshot) leave the sum alone.
+	if max >= atomic.LoadUint64(&s.sumStartIdx) {
+		atomic.StoreUint64(&s.checksum, 0)
+		atomic.StoreUint64(&s.sumStartIdx, 0)
+	}
+	return err
 }
 
 // Close cleans up the background verification routine and calls Close on the
